@@ -56,7 +56,7 @@ def mutator_summary(cg) -> Tuple[Dict[int, bool], Dict[int, bool]]:
     sealed = {'cwd': set(), 'argv': set()}
     for f in cg.funcs:
         for kind in ('cwd', 'argv'):
-            if _restores(f.node.body, kind):
+            if _restores(_desugar_with(cg.repo, f.node.body), kind):
                 sealed[kind].add(id(f.node))
 
     def closure(direct: Dict[int, bool], kind: str) -> Dict[int, bool]:
@@ -124,42 +124,132 @@ def _restoring_context_managers(repo) -> Dict[str, ast.FunctionDef]:
     return out
 
 
+def _plain_init_fields(ci) -> Optional[List[Tuple[str, ast.AST]]]:
+    """[(field, value)] when the class's __init__ takes no arguments and only does `self.<field> = <expr>` (else None)."""
+    init = ci.methods.get('__init__')
+    if init is None:
+        return []
+    n = init.node
+    if len(n.args.args) != 1 or n.args.vararg or n.args.kwarg or n.args.kwonlyargs:
+        return None
+    me = n.args.args[0].arg
+    out = []
+    for st in n.body:
+        if isinstance(st, ast.Expr) and isinstance(st.value, ast.Constant):
+            continue
+        if isinstance(st, ast.Assign) and len(st.targets) == 1 and isinstance(st.targets[0], ast.Attribute) and \
+                isinstance(st.targets[0].value, ast.Name) and st.targets[0].value.id == me:
+            out.append((st.targets[0].attr, st.value))
+        elif isinstance(st, ast.AnnAssign) and isinstance(st.target, ast.Attribute) and isinstance(st.target.value, ast.Name) \
+                and st.target.value.id == me and st.value is not None:
+            out.append((st.target.attr, st.value))
+        else:
+            return None
+    return out
+
+
+def _exit_protocol_body(ci) -> Optional[Tuple[str, List[ast.stmt]]]:
+    """(self name, statements) of a class-based context manager whose __enter__ only returns and whose __exit__ never swallows the
+    exception (returns nothing / False / None): leaving the with-block runs exactly these statements, like a finally."""
+    en, ex = ci.methods.get('__enter__'), ci.methods.get('__exit__')
+    if en is None or ex is None:
+        return None
+    eb = [s_ for s_ in en.node.body if not (isinstance(s_, ast.Expr) and isinstance(s_.value, ast.Constant))]
+    if not all(isinstance(s_, (ast.Return, ast.Pass)) for s_ in eb):
+        return None
+    xb = [s_ for s_ in ex.node.body if not (isinstance(s_, ast.Expr) and isinstance(s_.value, ast.Constant))]
+    rets = [r for s_ in xb for r in ast.walk(s_) if isinstance(r, ast.Return)]
+    if any(not (r.value is None or (isinstance(r.value, ast.Constant) and r.value.value in (False, None))) for r in rets):
+        return None
+    if rets and not (len(rets) == 1 and rets[0] is xb[-1]):
+        return None
+    return ex.node.args.args[0].arg, [s_ for s_ in xb if not isinstance(s_, ast.Return)]
+
+
 def _desugar_with(repo, body: List[ast.stmt]) -> List[ast.stmt]:
-    """`with restorer(a, b): BODY` -> `try: BODY finally: <restorer's finally with parameters replaced by a, b>` (recursively)."""
+    """`with restorer(a, b): BODY` -> `try: BODY finally: <restorer's finally with parameters replaced by a, b>` (recursively).
+    Object forms: `x = Cls()` additionally shows the fields its plain __init__ sets as `x.<field> = <expr>`; `with x:` runs Cls.__exit__ as
+    the finally, `with x.method():` the finally of the @contextmanager method (self replaced by x)."""
     from gxstat.inline import substitute
     from gxstat.srcmodel import clone, set_parents
     cms = _restoring_context_managers(repo)
-    if not cms:
-        return body
     changed = False
     out: List[ast.stmt] = []
+    inst: Dict[str, object] = {}
+
+    def relocate(node, st):
+        for x in ast.walk(node):
+            if hasattr(x, 'lineno') or isinstance(x, (ast.stmt, ast.expr)):
+                x.lineno = st.end_lineno or st.lineno
+                x.end_lineno = st.end_lineno or st.lineno
+                x.col_offset = getattr(x, 'col_offset', 0)
+                x.end_col_offset = getattr(x, 'end_col_offset', 0)
+        return node
+
+    def make_try(st, fin_src: List[ast.stmt], env) -> ast.Try:
+        fin = []
+        for fs in fin_src:
+            c_ = clone(fs)
+            c_ = substitute(c_, env) if env else c_
+            fin.append(relocate(c_, st))
+        tr = ast.Try(body=_desugar_with(repo, [clone(b) for b in st.body]), handlers=[], orelse=[], finalbody=fin)
+        ast.copy_location(tr, st)
+        tr.end_lineno = st.end_lineno
+        ast.fix_missing_locations(tr)
+        set_parents(tr)
+        tr._parent = parent(st)          # keep the original statements' parent links untouched
+        return tr
+
     for st in body:
-        if isinstance(st, ast.With) and len(st.items) == 1 and isinstance(st.items[0].context_expr, ast.Call) and \
-                isinstance(st.items[0].context_expr.func, ast.Name) and st.items[0].context_expr.func.id in cms:
-            call = st.items[0].context_expr
-            fn = cms[call.func.id]
-            params = [a.arg for a in fn.args.args]
-            env = {p_: a_ for p_, a_ in zip(params, call.args)}
-            env.update({k.arg: k.value for k in call.keywords if k.arg})
-            fin = []
-            for fs in fn.body[-1].finalbody:
-                c_ = clone(fs)
-                c_ = substitute(c_, env) if env else c_
-                for x in ast.walk(c_):
-                    if hasattr(x, 'lineno'):
-                        x.lineno = st.end_lineno or st.lineno
-                        x.end_lineno = st.end_lineno or st.lineno
-                fin.append(c_)
-            tr = ast.Try(body=_desugar_with(repo, [clone(b) for b in st.body]), handlers=[], orelse=[], finalbody=fin)
-            ast.copy_location(tr, st)
-            tr.end_lineno = st.end_lineno
-            ast.fix_missing_locations(tr)
-            set_parents(tr)
-            tr._parent = parent(st)          # keep the original statements' parent links untouched
-            out.append(tr)
-            changed = True
-        else:
-            out.append(st)
+        # x = Cls()  with a plain __init__
+        if isinstance(st, ast.Assign) and len(st.targets) == 1 and isinstance(st.targets[0], ast.Name) and isinstance(st.value, ast.Call) \
+                and isinstance(st.value.func, ast.Name) and not st.value.args and not st.value.keywords:
+            ci = repo.find_cls(st.value.func.id)
+            if ci is not None and (_exit_protocol_body(ci) is not None or any(m in cms and cms[m] is ci.methods[m].node for m in ci.methods)):
+                fields = _plain_init_fields(ci)
+                if fields is not None:
+                    x = st.targets[0].id
+                    inst[x] = ci
+                    out.append(st)
+                    me = ci.methods['__init__'].node.args.args[0].arg if '__init__' in ci.methods else 'self'
+                    for fld, val in fields:
+                        a_ = ast.Assign(targets=[ast.Attribute(value=ast.Name(id=x, ctx=ast.Load()), attr=fld, ctx=ast.Store())],
+                                        value=substitute(val, {me: ast.Name(id=x, ctx=ast.Load())}))
+                        ast.copy_location(a_, st)
+                        ast.fix_missing_locations(a_)
+                        set_parents(a_)
+                        a_._parent = parent(st)
+                        out.append(a_)
+                    changed = True
+                    continue
+        if isinstance(st, ast.With) and len(st.items) == 1:
+            ce = st.items[0].context_expr
+            if isinstance(ce, ast.Call) and isinstance(ce.func, ast.Name) and ce.func.id in cms:
+                fn = cms[ce.func.id]
+                params = [a.arg for a in fn.args.args]
+                env = {p_: a_ for p_, a_ in zip(params, ce.args)}
+                env.update({k.arg: k.value for k in ce.keywords if k.arg})
+                out.append(make_try(st, fn.body[-1].finalbody, env))
+                changed = True
+                continue
+            if isinstance(ce, ast.Name) and ce.id in inst:
+                proto = _exit_protocol_body(inst[ce.id])
+                if proto is not None:
+                    out.append(make_try(st, proto[1], {proto[0]: ast.Name(id=ce.id, ctx=ast.Load())}))
+                    changed = True
+                    continue
+            if isinstance(ce, ast.Call) and isinstance(ce.func, ast.Attribute) and isinstance(ce.func.value, ast.Name) \
+                    and ce.func.value.id in inst and ce.func.attr in inst[ce.func.value.id].methods and ce.func.attr in cms \
+                    and cms[ce.func.attr] is inst[ce.func.value.id].methods[ce.func.attr].node:
+                fn = cms[ce.func.attr]
+                params = [a.arg for a in fn.args.args]
+                env = {params[0]: ast.Name(id=ce.func.value.id, ctx=ast.Load())}
+                env.update({p_: a_ for p_, a_ in zip(params[1:], ce.args)})
+                env.update({k.arg: k.value for k in ce.keywords if k.arg})
+                out.append(make_try(st, fn.body[-1].finalbody, env))
+                changed = True
+                continue
+        out.append(st)
     return out if changed else body
 
 
@@ -168,6 +258,8 @@ def check_wrapper(ctx, owner: str, rel: str, body: List[ast.stmt], scope_node: a
     """P1 on one function body (or on a module body for __main__)."""
     if f is not None and f.name in _restoring_context_managers(ctx.repo):
         return                                  # a restoring context manager is the restore, not a wrapper that owes one
+    if f is not None and f.cls is not None and f.name == '__exit__' and _exit_protocol_body(f.cls) is not None:
+        return                                  # likewise the __exit__ of a class-based context manager (its users are desugared and checked)
     body = _desugar_with(ctx.repo, body)
     # mutating sites in this body
     def call_mutates(call: ast.Call, summ) -> bool:
